@@ -1,24 +1,44 @@
-"""THROW-AWAY development driver for C06 (law + storage part only); the coordinator replaces it."""
+"""C06 - target networks follow the Polyak / hard-copy law, only at update points."""
 import json
 
+from .. import sweep, tlc
 from . import c06_law
 
 LEVEL = "model_checking"
 MANIFEST = dict(
     category="model_checking",
-    text="(development stub - law and storage clauses only)",
-    note="",
-    technique="TLA+ spec + TLC; replay into soft_/hard_target_net_update",
+    text="TargetNet.tla models online / target parameter trees as references into a heap of storage cells with actions SupplyTarget, CreateTarget, OnlineStep, SoftUpdate(tau), HardUpdate; TLC checks the Polyak law per leaf, tau=1 / tau=0, the closed form over histories, OnlineUntouched, TargetUntouched and NoSharedStorage, and refutes seven deviations. Every transition is replayed into real modules of 16 types with exact dyadic values in every leaf; targets created by each train_* routine are checked for storage independence. Cadence: every routine that maintains targets is run with small delays on a scripted environment; LoopTrace.tla requires target components to change exactly in the learning segments where the routine's documented rule (every step / every policy-delay / every target-delay interval) makes them due (TargetsOnlyAtUpdatePoints, TargetUpdateMissing, TargetChangeOutsideLearning).",
+    note="dyadic lattice for exact comparison, counted rounding bound for non-dyadic tau; inside float-valued training runs only the cadence (which segments change a target) is decided, the arithmetic law is decided at function level; bounded runs; trusted: digests, recording wrappers, TLC",
+    technique="TLA+ spec + TLC; transition-coverage replay into real modules; trace validation of recorded training runs for the update cadence",
 )
 
 
 def run(rep):
     c06_law.run_law(rep)
+    for m in ("LoopClauses", "LoopTrace"):
+        tlc.sany(m)
+    traces, out = sweep.report_property(rep, "C06")
+    ruled = [t for t in traces if t["cfg"].get("rules") and t["cfg"].get("targets")]
+    rep.extra["cadence"] = {"runs_with_target_rules": len(ruled), "routines": sorted({t["cfg"]["routine"] for t in ruled}),
+                            "target_change_events": sum(1 for t in ruled for e in loop_changed(t) if e)}
+    if not ruled:
+        raise tlc.MachineryError("no recorded run carries target-cadence rules (vacuous cadence clause)")
+
+
+def loop_changed(t):
+    from ..loopbind import normalise
+
+    n = normalise(t)
+    tg = set(n["cfg"]["targets"])
+    return [bool(tg & set(e["changed"])) for e in n["events"]]
 
 
 def replay(path, rep):
-    d = json.load(open(path))
-    rc = c06_law.replay_law(d["replay"], rep)
+    d = json.load(open(path))["replay"]
+    if isinstance(d, dict) and d.get("kind") == "sweep":
+        rc = sweep.replay_one(d, "C06")
+    else:
+        rc = c06_law.replay_law(d, rep)
     if rc:
         print("VIOLATION property=C06 replay=" + path)
     return rc
